@@ -114,6 +114,32 @@ def rule_fields(facts):
                 r.ok("sibling", {"field": f, "reset": "fill(0x400) on equal size / Vec2D::init otherwise", "paths": "all"})
             continue
         if not ss:
+            # an in-place reset method on the field: f.reset() must leave the field as its constructor builds it
+            inpl = []
+            for blk in rst.calls():
+                cal = blk.term.callee
+                if cal is None or not cal.target().local or not blk.term.args or blk.term.args[0].ty.k != "ref" or not blk.term.args[0].ty.mut:
+                    continue
+                a = tmr.of_operand(blk.term.args[0])
+                while isinstance(a, tuple) and a and a[0] in ("ref", "deref"):
+                    a = a[1]
+                if isinstance(a, tuple) and a[0] == "field" and a[1] == f and pat.has_arg(a, "self"):
+                    inpl.append(blk)
+            fty = ftys.get(f)
+            tn = fty.get("name") if isinstance(fty, dict) else None
+            w = ctor.get(f)
+            if inpl and tn and isinstance(w, tuple) and w[0] == "call" and w[1].split("::<")[0].endswith("%s::new" % tn.split("::")[-1]):
+                sub = facts.by_def.get(inpl[0].term.callee.target().defk)
+                probs = inplace_equiv(facts, sub, tn) if sub is not None else ["callee body not available"]
+                covered = [x.idx for x in inpl]
+                if not all(not c.some_path(0, [x], avoid=covered) for x in rets):
+                    probs.append("a path through reset_state skips it")
+                if probs:
+                    r.bad("%s|inplace" % f, "`%s` is reset in place by %s, which does not restore the constructor's value: %s"
+                          % (f, short(sub.name) if sub is not None else "?", "; ".join(probs[:3])), pat.where(rst, inpl[0].idx))
+                else:
+                    r.ok("sibling", {"field": f, "reset": "in place by %s, field by field equal to %s::new()" % (short(sub.name), tn.split("::")[-1])})
+                continue
             r.bad("%s|missing" % f, "reset_state does not re-initialise `%s` (the constructor sets it to %s)"
                   % (f, flow.show(ctor.get(f))[:80]), pat.where(rst))
             continue
@@ -142,6 +168,164 @@ def strip_call_bb(t):
     if t[0] == "call":
         return ("call", t[1], tuple(strip_call_bb(a) for a in t[2]))
     return tuple([t[0]] + [strip_call_bb(x) if isinstance(x, tuple) else x for x in t[1:]])
+
+
+# ---------------------------------------------------------------- in-place resets
+def _ctor_of(facts, adt_name):
+    """(body, {field: term}) of `T::new()` - the argument-less constructor of a crate type."""
+    sn = adt_name.split("::")[-1]
+    for b in facts.bodies:
+        if b.promoted is None and b.arg_count == 0 and short(b.name).split("::<")[0].endswith("%s::new" % sn):
+            adt = facts.adt(adt_name)
+            if adt is None:
+                return None
+            fields = [f["name"] for f in adt["variants"][0]["fields"]]
+            tm = Terms(b)
+            for blk in b.blocks:
+                for s in blk.stmts:
+                    if s.k == "assign" and s.rv.k == "aggregate" and s.rv.agg == "adt" and s.rv.adt_name == adt_name and len(s.rv.ops) == len(fields):
+                        return b, {fields[i]: strip_call_bb(tm.of_operand(o)) for i, o in enumerate(s.rv.ops)}
+    return None
+
+
+def inplace_equiv(facts, m, adt_name, depth=0):
+    """Does method `m(&mut self)` of crate type `adt_name` leave every field as `T::new()` builds it?
+    Returns a list of problems (empty = equivalent)."""
+    if depth > 4:
+        return ["nesting too deep"]
+    ct = _ctor_of(facts, adt_name)
+    adt = facts.adt(adt_name)
+    if ct is None or adt is None:
+        return ["no argument-less constructor of %s to compare with" % adt_name]
+    _, want = ct
+    ftys = {f["name"]: f["ty"] for f in adt["variants"][0]["fields"]}
+    tm = Terms(m)
+    c = cfg(m)
+    done = {}
+    probs = []
+    for blk in m.blocks:
+        if blk.cleanup:
+            continue
+        for s in blk.stmts:
+            if s.k == "assign" and s.place.proj and len(s.place.proj) == 2 and s.place.proj[-1][0] == "field" and \
+                    pat.has_arg(tm.of_local(s.place.local), "self"):
+                f = s.place.proj[-1][2]
+                t = strip_call_bb(tm.of_rvalue(s.rv, 0))
+                if t == want.get(f):
+                    done[f] = True
+                else:
+                    probs.append("`%s` is set to %s, %s::new() builds %s" % (f, flow.show(t)[:50], adt_name.split("::")[-1], flow.show(want.get(f))[:50]))
+                    done[f] = True
+    for blk in m.calls():
+        nm = flow.callee(blk.term) or ""
+        if not blk.term.args:
+            continue
+        a = tm.of_operand(blk.term.args[0])
+        base = a
+        while isinstance(base, tuple) and base and base[0] in ("ref", "cast", "deref"):
+            base = base[1] if base[0] != "cast" else base[2]
+        # whole-array fill of a field
+        if nm.endswith("core::slice::fill") and isinstance(base, tuple) and base[0] == "field" and base[1] in ftys:
+            f = base[1]
+            v = strip_call_bb(tm.of_operand(blk.term.args[1]))
+            ty = ftys[f]
+            if isinstance(ty, dict) and ty.get("k") == "array" and want.get(f) == ("repeat", v, ty["len"]):
+                done[f] = True
+            elif isinstance(want.get(f), tuple) and want[f][0] == "repeat" and want[f][1] == v:
+                done[f] = True      # length given by a const generic
+            else:
+                probs.append("`%s` is filled with %s, the constructor builds %s" % (f, flow.show(v), flow.show(want.get(f))[:50]))
+                done[f] = True
+            continue
+        cal = blk.term.callee
+        if cal is None or not cal.target().local or blk.term.args[0].ty.k != "ref" or not blk.term.args[0].ty.mut:
+            continue
+        sub = facts.by_def.get(cal.target().defk)
+        if sub is None or sub.arg_count != 1:
+            continue
+        # (a) a field that is itself a crate type: f.reset()
+        if isinstance(base, tuple) and base[0] == "field" and base[1] in ftys and pat.has_arg(base, "self"):
+            f = base[1]
+            fty = ftys[f]
+            tn = fty.get("name") if isinstance(fty, dict) else None
+            w = want.get(f)
+            if tn and isinstance(w, tuple) and w[0] == "call" and w[1].split("::<")[0].endswith("%s::new" % tn.split("::")[-1]):
+                sp = inplace_equiv(facts, sub, tn, depth + 1)
+                probs += ["%s.%s" % (f, x) for x in sp]
+                done[f] = True
+            continue
+        # (b0) `for x in self.f.iter_mut() { x.reset() }`: every element of the array field
+        it = [q for q in _subterms(a) if q[0] == "call" and q[1].endswith(("iter_mut", "IntoIterator::into_iter"))]
+        if it and pat.has_call(a, "::next"):
+            fbs = [q for q in _subterms(it[0]) if q[0] == "field" and q[1] in ftys and isinstance(ftys[q[1]], dict) and ftys[q[1]].get("k") == "array"]
+            if fbs:
+                f = fbs[0][1]
+                fty = ftys[f]
+                en = fty["elem"].get("name") if isinstance(fty.get("elem"), dict) else None
+                w = want.get(f)
+                elems_new = isinstance(w, tuple) and w[0] == "agg" and w[1] == "array" and en and \
+                    all(isinstance(x, tuple) and x[0] == "call" and x[1].split("::<")[0].endswith("%s::new" % en.split("::")[-1]) for x in w[2])
+                if elems_new:
+                    probs += ["%s[*].%s" % (f, x) for x in inplace_equiv(facts, sub, en, depth + 1)]
+                else:
+                    probs.append("cannot compare the element-wise reset of `%s` with the constructor" % f)
+                done[f] = True
+                continue
+        # (b) an element of an array field inside a loop over its indices: f[i].reset()
+        if isinstance(base, tuple) and base[0] == "index" and isinstance(base[1], tuple):
+            fb = base[1]
+            while isinstance(fb, tuple) and fb and fb[0] in ("ref", "deref", "cast"):
+                fb = fb[1] if fb[0] != "cast" else fb[2]
+            if not (isinstance(fb, tuple) and fb[0] == "field" and fb[1] in ftys):
+                continue
+            f = fb[1]
+            fty = ftys[f]
+            if not (isinstance(fty, dict) and fty.get("k") == "array"):
+                continue
+            n = fty["len"]
+            idx = base[2]
+            rng = [q for q in _subterms(idx) if q[0] == "agg" and str(q[1]).endswith("Range::Range")]
+            bound = None
+            if rng:
+                def lenleaf(q):
+                    # `self.g.len()` of an array field
+                    if (q[0] == "call" and q[1].endswith("::len")) or q[0] == "PtrMetadata":
+                        for g_, ty_ in ftys.items():
+                            if isinstance(ty_, dict) and ty_.get("k") == "array" and pat.has_field(q, g_):
+                                return ty_["len"]
+                    raise pat.NotEvaluable(q)
+                try:
+                    lo = pat.eval_term(rng[0][2][0], lenleaf)
+                    hi = pat.eval_term(rng[0][2][1], lenleaf)
+                    bound = (lo, hi)
+                except (pat.NotEvaluable, pat.Overflow):
+                    bound = None
+            en = fty["elem"].get("name") if isinstance(fty.get("elem"), dict) else None
+            w = want.get(f)
+            elems_new = isinstance(w, tuple) and w[0] == "agg" and w[1] == "array" and en and \
+                all(isinstance(x, tuple) and x[0] == "call" and x[1].split("::<")[0].endswith("%s::new" % en.split("::")[-1]) for x in w[2])
+            if bound is None or not elems_new:
+                probs.append("cannot compare the element-wise reset of `%s` with the constructor" % f)
+            elif bound != (0, n):
+                probs.append("the reset loop over `%s` covers elements %d..%d of %d" % (f, bound[0], bound[1], n))
+            else:
+                probs += ["%s[i].%s" % (f, x) for x in inplace_equiv(facts, sub, en, depth + 1)]
+            done[f] = True
+    for f in ftys:
+        if f not in done:
+            probs.append("`%s` is not touched" % f)
+    return probs
+
+
+def _subterms(t, out=None):
+    out = [] if out is None else out
+    if isinstance(t, tuple):
+        if t and isinstance(t[0], str):
+            out.append(t)
+        for x in t:
+            if isinstance(x, tuple):
+                _subterms(x, out)
+    return out
 
 
 def rule_entries(facts):
